@@ -1242,7 +1242,7 @@ pub const HARNESSES: &[(&str, &str, &str, &str)] = &[
     ("HashDSTHarness", "M", "hash", ""),
     ("SortedSetDSTHarness", "M", "sorted-set", ""),
     ("TransactionDSTHarness", "M", "transaction", ""),
-    ("MultiNodeSimulation", "M", "multi-node", "+ multi-node-gen (generated scenarios), partition (run_partition_test): scripts of API calls predicted by Model/SimCluster (buckets / ring owners probed from the real code); the API scenarios of family multi-node-api stay explored"),
+    ("MultiNodeSimulation", "M", "multi-node", "+ multi-node-gen (generated scenarios), partition (run_partition_test): scripts of API calls predicted by Model/SimMulti (buckets / ring owners probed from the real code); the API scenarios of family multi-node-api stay explored"),
     ("StreamingDSTHarness", "E", "streaming", ""),
     ("StreamingWorkload", "M", "streaming-workload", "operation sequence predicted and compared with the history the real harness records (workload_ops_independent_of_store)"),
     ("CompactionDSTHarness", "E", "compaction", ""),
